@@ -580,6 +580,11 @@ def tnode_coq(n, out_t):
 
 def case_coq(nodes, data0, ctx0, r, prior=False, pid_same=True):
     """Gallina `tcase` of a traced run r (raises pg.Unsupported for values outside the model)"""
+    last = r.log.entries[-1] if r.log.entries else None
+    if last is not None and last["exc"] is not None and last["ctx_post"] != last["ctx_pre"]:
+        # Model/Pipeline.v's exec_node has no partial effects on failure; the SER of such a node is still checked
+        # against the real context difference by the direct oracle of C07
+        raise pg.Unsupported("failing node changed the context before raising")
     objs = list(getattr(r.pipe, "nodes", []) or [])
     orch = getattr(r.pipe, "orchestrator", None)
     last = list(getattr(orch, "last_nodes", []) or []) if orch is not None else []
